@@ -111,6 +111,7 @@ def corruptions(doc, ver, clsname=None, dictionary=None):
             out.append(_set(p, "id:upper-type", prefix.upper() + "3f2504e0-4f89-41d3-9a0c-0305e82c3301"))
             out.append(_set(p, "id:uuid-v1", prefix + V1_UUID))
             out.append(_set(p, "id:other-valid-uuid", prefix + "7e4ba2c2-6b3e-4a0f-9a6e-0e2f5f5d0a11"))
+            out.append(_set(p, "id:double-separator", prefix + "evil--3f2504e0-4f89-41d3-9a0c-0305e82c3301"))
         elif k == "reference":
             cur_t = val.split("--")[0] if isinstance(val, str) else ""
             for t in all_types:
@@ -119,6 +120,8 @@ def corruptions(doc, ver, clsname=None, dictionary=None):
             for name, u in BAD_UUIDS:
                 out.append(_set(p, "ref:" + name, cur_t + "--" + u))
             out.append(_set(p, "ref:uuid-v1", cur_t + "--" + V1_UUID))
+            out.append(_set(p, "ref:double-separator", cur_t + "--evil--3f2504e0-4f89-41d3-9a0c-0305e82c3301"))
+            out.append(_set(p, "ref:double-separator-only", cur_t + "----3f2504e0-4f89-41d3-9a0c-0305e82c3301"))
         elif k == "timestamp":
             for name, t in BAD_TS:
                 out.append(_set(p, "ts:" + name, t))
@@ -151,7 +154,8 @@ def corruptions(doc, ver, clsname=None, dictionary=None):
             out.extend([_set(p, "b64:garbage", "!!!"), _set(p, "b64:bad-padding", "abc"), _set(p, "b64:inner-space", "ab cd"), _set(p, "b64:urlsafe", "ab-_"), _set(p, "b64:trailing-newline", "AAAA\n")])
         elif k == "selector":
             out.extend([_set(p, "selector:absent", "no_such_property"), _set(p, "selector:index-past-end", "labels.[99]"),
-                        _set(p, "selector:syntax", "a..b"), _set(p, "selector:upper-first", "Name"), _set(p, "selector:trailing-newline", "type\n")])
+                        _set(p, "selector:syntax", "a..b"), _set(p, "selector:upper-first", "Name"), _set(p, "selector:trailing-newline", "type\n"),
+                        _set(p, "selector:index-into-string", "type.[0]"), _set(p, "selector:index-into-string:id", "id.[2]"), _set(p, "selector:key-under-string", "type.abc")])
         elif k == "extensions":
             out.append(_set(p, "ext:unknown", {"x-unknown-ext": {"a": 1}}))
             out.append(_set(p, "ext:nondict-value", {"archive-ext": 5}))
